@@ -220,6 +220,28 @@ Definition init_state (cfg : path) (c0 : content) (v0 : value) (r0 : path) : lst
 
 Definition init_fs (c0 : content) (r0 : path) : fs := mkFs (Content c0) (Some r0) true true.
 
+(* the pair (file system, loop state) right after Watch returned, and the loop
+   state after a trace from there *)
+Definition start (cfg : path) (c0 : content) (v0 : value) (r0 : path) : fs * lstate :=
+  (init_fs c0 r0, init_state cfg c0 v0 r0).
+Definition after (udw : path -> bool -> path -> path -> list path -> list path)
+           (cfg : path) (c0 : content) (v0 : value) (r0 : path) (t : list item) : lstate :=
+  snd (run udw cfg t (start cfg c0 v0 r0)).
+Definition fs_after (udw : path -> bool -> path -> path -> list path -> list path)
+           (cfg : path) (c0 : content) (v0 : value) (r0 : path) (t : list item) : fs :=
+  fst (run udw cfg t (start cfg c0 v0 r0)).
+
+(* an error-producing read: I/O error, or content the decoder rejects *)
+Definition bad_read (r : read_result) : Prop :=
+  r = IOErr \/ exists c, r = Content c /\ decode c = None.
+
+(* every file-system change in the trace keeps content c *)
+Definition same_content (c : content) (it : item) : bool :=
+  match it with
+  | Fs f => match fs_read f with Content c' => c' =? c | _ => false end
+  | _ => true
+  end.
+
 (* ---- decidable side conditions used by the theorems ---- *)
 
 (* the watch-set invariant *)
